@@ -97,6 +97,8 @@ pub struct GenCfg {
     pub barrier_only_cb: u32,
     /// after an event that adopted a pointer during marking, stop generating (C06/C13 shape)
     pub settle_after_adoption: bool,
+    /// chance out of 16 that a new arena has a bare root (no DynamicRootSet, no ZstCache)
+    pub bare_bias: u32,
 }
 
 pub struct Gen {
@@ -151,7 +153,8 @@ impl Gen {
             self.queue_panic_at = Some(at);
         }
         let p = self.pick_pacing();
-        Event::NewArena { a, root_set: w.sh.next_id, ops: vec![], p, fail }
+        let bare = self.rng.below(16) < self.cfg.bare_bias as usize;
+        Event::NewArena { a, root_set: w.sh.next_id, ops: vec![], p, fail, bare }
     }
 
     pub fn next_event(&mut self, w: &World) -> Event {
